@@ -6,6 +6,14 @@
 # while other work is building against them.
 set -e
 # one user of /tmp/mt at a time
+# (re-entrant: skip if we were told so, or if an ancestor already holds `flock /tmp/mt.lock`)
+if [ -z "$MT_LOCKED" ]; then
+  pid=$$
+  while [ -n "$pid" ] && [ "$pid" != "1" ] && [ "$pid" != "0" ]; do
+    if tr '\0' ' ' < /proc/$pid/cmdline 2>/dev/null | grep -q "flock /tmp/mt.lock"; then MT_LOCKED=1; break; fi
+    pid=$(awk '{print $4}' /proc/$pid/stat 2>/dev/null)
+  done
+fi
 if [ -z "$MT_LOCKED" ]; then
   exec env MT_LOCKED=1 flock /tmp/mt.lock "$0" "$@"
 fi
